@@ -5,6 +5,7 @@ package props
 import (
 	"errors"
 	"fmt"
+	"math"
 	"math/big"
 	"strings"
 	"sync"
@@ -89,7 +90,11 @@ func TestC05NonceStore(t *testing.T) {
 				case "submit":
 					id := rapid.SampledFrom([]string{"a", "b", "c"}).Draw(rt, "id")
 					var delta int64
-					switch rapid.IntRange(0, 3).Draw(rt, "deltaClass") {
+					switch rapid.IntRange(0, 4).Draw(rt, "deltaClass") {
+					case 4:
+						// absolute values at the ends of the number range (the arithmetic around "too old" must not wrap)
+						abs := rapid.SampledFrom([]int64{math.MinInt64, math.MinInt64 + 1, -8e18, -7.5e18, -4e18, -1, 0, 1, math.MaxInt64 - 1, math.MaxInt64}).Draw(rt, "absoluteNonce")
+						delta = abs - time.Now().UnixNano() // (wraps; now+delta is abs again)
 					case 0, 1:
 						delta = int64(rapid.SampledFrom(nonceDeltas).Draw(rt, "delta"))
 					case 2:
